@@ -17,7 +17,8 @@
 //!   `sd` send_data / `pr` poll_ready / `pf` poll_finish / `rd` poll_data (target = stream id), `au`
 //!   poll_accept_recv / `ab` poll_accept_bidi answers `C<code>` ApplicationClose, `T` Timeout, `I`
 //!   InternalError, `U` Undefined (connection errors, sticky: the connection has failed), `X<code>`
-//!   StreamTerminated or `K` Unknown (stream errors).  With faults the summary ends with `fired=[labels]`.
+//!   StreamTerminated or `K` Unknown (stream errors); `!pf<sid>:P`: that poll_finish answers `Pending` once.
+//!   With faults the summary ends with `fired=[labels]`.
 //!   cfg hold=1: `builder.build(conn)` is not called at the start but by the api op `conn.B` / `drv.B`
 //!   cfg ops=1: every op of the script is logged into the trace as `@<op>` before it is applied, and (with
 //!   ev=1) a fault that fires as `!<label>`: the trace is then the complete interleaved history
